@@ -79,7 +79,9 @@ def grid_spec(draw, max_res=8):
 def imager_spec(draw, max_res=8, allow_uniform=True, nonneg_only=False, max_r=0.99):
     g = draw(grid_spec(max_res))
     return {"grid": g, "kernel": draw(kernel_spec(g["pixel"], allow_uniform, max_r)),
-            "weight": draw(weight_spec(g["pixel"], nonneg_only))}
+            "weight": draw(weight_spec(g["pixel"], nonneg_only)),
+            # every keyword (of the constructor and of the built-in weight functions) whose value equals its documented default is left out
+            "omit_defaults": draw(st.booleans())}
 
 
 @st.composite
@@ -124,11 +126,16 @@ def kernel_args(k):
     return "gaussian", {"sigma": np.array(m) if k.get("form") == "array" else m}
 
 
-def weight_args(w):
-    if w["type"] == "persistence":
-        return "persistence", {"n": w["n"]}
-    if w["type"] == "linear_ramp":
-        return "linear_ramp", {"low": w["low"], "high": w["high"], "start": w["start"], "end": w["end"]}
+WEIGHT_DEFAULTS = {"persistence": {"n": 1.0}, "linear_ramp": {"low": 0.0, "high": 1.0, "start": 0.0, "end": 1.0}}   # documented signatures
+
+
+def weight_args(w, omit_defaults=False):
+    if w["type"] in ("persistence", "linear_ramp"):
+        wp = {"n": w["n"]} if w["type"] == "persistence" else {"low": w["low"], "high": w["high"], "start": w["start"], "end": w["end"]}
+        if omit_defaults:
+            dd = WEIGHT_DEFAULTS[w["type"]]
+            wp = {k: v for k, v in wp.items() if not (isinstance(v, float) and v == dd[k])}
+        return w["type"], wp
     if w["name"] == "const":
         return w_const, {"value": w["param"]}
     return w_b_plus_p, {"scale": w["param"]}
@@ -143,9 +150,21 @@ def make_imager(spec):
     g = spec["grid"]
     br, pr = grid_ranges(g)
     kern, kp = kernel_args(spec["kernel"])
-    wt, wp = weight_args(spec["weight"])
-    return PersistenceImager(birth_range=br, pers_range=pr, pixel_size=g["pixel"], weight=wt, weight_params=wp,
-                             kernel=kern, kernel_params=kp)
+    omit = bool(spec.get("omit_defaults"))
+    wt, wp = weight_args(spec["weight"], omit)
+    kw = dict(birth_range=br, pers_range=pr, pixel_size=g["pixel"], weight=wt, weight_params=wp, kernel=kern, kernel_params=kp)
+    if omit:
+        from ..core import DOCUMENTED_DEFAULTS, _is_default
+        dd = DOCUMENTED_DEFAULTS["PersistenceImager"]
+        full_wp = weight_args(spec["weight"])[1]
+        if wt == "persistence" and full_wp == {"n": 1.0}:
+            kw.pop("weight")            # the documented default weight with its documented default parameter
+            kw.pop("weight_params")
+        if kern == "gaussian" and isinstance(kp.get("sigma"), list) and kp["sigma"] == [[1.0, 0.0], [0.0, 1.0]]:
+            kw.pop("kernel")
+            kw.pop("kernel_params")
+        kw = {k: v for k, v in kw.items() if not (k in ("birth_range", "pers_range", "pixel_size") and _is_default(v, dd[k]))}
+    return PersistenceImager(**kw)
 
 
 def to_bd(pts_bp):
